@@ -47,6 +47,15 @@ claimed["C07"] = ("law monitor on sort outputs, in process and at the process bo
 claimed["C15"] = ("differential process monitor: built univers binary vs in-process library on generated argv (runtime monitoring)",
   "Exploration: for generated argument vectors over all names and commands the binary's stdout and exit status are compared with the library result computed through the adapter registered under the same name; discriminating inputs make mis-wiring observable.",
   "Trusts the harness's formatter for the documented output format; equal elements in sort output are compared modulo equivalence classes.", "5/C15")
+claimed["C18"] = ("metamorphic law monitor: String()/re-parse round trip and whitespace padding invariance (runtime monitoring)",
+  "Exploration: generated accepted (and some rejected) version and range strings are round-tripped through String() and re-parsed, and padded with ASCII whitespace; acceptance, Compare against pool partners and Contains must not change.",
+  "ASCII whitespace = space, tab, CR, LF; probes and partners come from the same generated pools.", "5/C18")
+claimed["C20"] = ("law monitor over pool x range membership matrices: equal versions agree, conjunctions are convex (runtime monitoring)",
+  "Exploration: every accepted generated range is evaluated on whole pools enriched with respellings; Compare-equal versions must agree on membership and conjunction-only ranges must contain a contiguous block of the pool's sorted classes.",
+  "Compare is the order; pools that are not total preorders are skipped (C01); exclusions as in the quantifier.", "5/C20")
+claimed["C19"] = ("Go race detector over barrier-released goroutine storms on shared values + purity fingerprints + concurrent/sequential and history differentials (runtime monitoring, sanitizer)",
+  "Exploration: a -race build runs storms at several G and GOMAXPROCS on shared versions, ranges and ecosystem values for all 20 ecosystems and vers; DATA RACE reports, result differences vs a sequential run, fingerprint changes across calls and history dependence are the violations.",
+  "Happens-before race detection covers conflicting accesses the workload executes; package-level tables are observed through results, not fingerprinted.", "5/C19")
 pending = {}
 props = [json.loads(l) for l in open(os.path.join(V, "properties.jsonl"))]
 checks, na = [], []
